@@ -281,7 +281,7 @@ def run_entry(entry, n, seed, acc, tier, checker=None, **gkw):
         meta = genfaulty.meta_of(doc, exps)
         if delims:
             meta['delims'] = list(delims)
-            return {'text': doc.text(term=delims[0], ele=delims[1], sub=delims[2], rep=delims[3], eol='' if delims[0] == '\n' else '\n'), 'meta': meta}
+            return {'text': doc.text(term=delims[0], ele=delims[1], sub=delims[2], rep=delims[3], eol='' if delims[0] == '\n' else ch.choice(['\n', '\n', '', '\r\n'])), 'meta': meta}
         return {'text': doc.text(), 'meta': meta}
 
     def chk(c):
